@@ -2076,7 +2076,8 @@ def run(check):
         'when a validator is set',
         'the translators xsitype.py (from_element xsi:type block and _get_xsi_target -> decision table over five tests) and '
         'dictleaf.py (_ret_bool, _ret_number, integer_from_bytes, the ComplexModelBase branch of _from_dict_value, handler '
-        'registrations): exact-shape recognisers, fail closed',
+        'registrations): semantic recognisers (symbolic execution of the source to decision tables, compared with reference '
+        'variants / enumerated into the Gallina table; harness/translate/symexec.py), fail closed',
         'lxml (parsing, element.nsmap, validator=lxml), json, PyYAML, msgpack: the documents the models start from are what these '
         'libraries hand to Spyne (printed from the parsed objects), not bytes',
     ]
